@@ -106,6 +106,9 @@ impl C15 {
                 }
                 Err(e) => ctx.violation(&format!("logprob:one_minus:panic:{}", panic_site(&e)), Obj::new().f("p", p).s("what", &e).done()),
             }
+            if ctx.wants_sample("binary") {
+                ctx.sample("binary", || Obj::new().f("p_ln", p).f("q_ln", q).f("ln_add_exp", a).f("linear_sum", p.exp() + q.exp()).done());
+            }
             ctx.shape(true, &("C15", "bin", class_of(p), class_of(q), p == q));
         }
         ctx.count("binary_operand_pairs", n as u64);
@@ -182,6 +185,9 @@ impl C15 {
                 break;
             }
         }
+        if ctx.wants_sample("list") && n > 0 && n < 12 {
+            ctx.sample("list", || Obj::new().d("operands_ln", &v).f("ln_sum_exp", s).f("linear_sum", lin).done());
+        }
         ctx.shape(true, &("C15", "list", mode, super::alnspec::size_class(n), class_of(mx.ln())));
         ctx.count("lists", 1);
     }
@@ -256,6 +262,9 @@ impl C15 {
             }
             Err(e) => ctx.violation(&format!("logprob:trapezoid_grid:panic:{}", panic_site(&e)), desc(e)),
         }
+        if ctx.wants_sample("integration") {
+            ctx.sample("integration", || Obj::new().u("density_kind", kind).u("grid_points", n as u64).f("a", a).f("b", b).f("linear_trapezoid", lin).f("linear_simpson", lin2).done());
+        }
         ctx.shape(true, &("C15", "integ", kind, super::alnspec::size_class(n)));
         ctx.count("integration_cases", 1);
     }
@@ -329,8 +338,8 @@ impl Monitor for C15 {
         N_DIRECTED
             + match t {
                 Tier::Tiny => 10,
-                Tier::Quick => 40_000,
-                Tier::Thorough => 600_000,
+                Tier::Quick => 2400000,
+                Tier::Thorough => 24000000,
             }
     }
     fn rule(&self) -> &'static str {
